@@ -1013,7 +1013,7 @@ def r_defer(prog, R, E):
             q = strip(call_arg(c, 1))
             k = "fn=%s sends an unlinked query" % f.name
             if q is None or q.get("k") != "var":
-                r.broke("%s: query argument of ares_send_query not a variable" % f.name)
+                r.viol(k, f.name, f.loc(c["ln"]), "%s hands ares_send_query %s, a pointer read from a structure rather than a query it has just unlinked, allocated or looked up by id: nothing ties that pointer to a request that still exists" % (f.name, render(q)))
                 continue
             mf = MustFacts(f)
             okq = None
@@ -1044,6 +1044,55 @@ def r_defer(prog, R, E):
                 r.viol(k, f.name, f.loc(c["ln"]), "%s hands ares_send_query a query that may still be linked to its previous connection: if the send fails, closing that connection requeues the same query a second time (double completion / use after free)" % f.name)
 
 
+QREF_OK = {
+    ("ares_query", "conn"): "the connection a query is currently written to; cleared by ares_query_remove_from_conn, which every close/requeue path runs first",
+    ("ares_server", "tcp_conn"): "the server's one TCP connection; reset by ares_close_connection before the connection is freed",
+}
+
+
+def r_qref(prog, R):
+    r = R.rule("R-C01-QREF", "requests and connections are referenced only from the channel's indexes and from back-pointers their release path clears: no other structure "
+               "parks a query/connection pointer across callbacks, and a deferred re-send looks its query up by id again", floor=3, analysis="A-WMC on record member types + re-derivation check")
+    n = 0
+    for name, rec in sorted(prog.records.items()):
+        if not rec.get("relfile", "").startswith(("src/lib/", "include/")):
+            continue
+        for fld in rec.get("fields", []):
+            ty = fld.get("ty", "") + " " + fld.get("tyw", "")
+            hit = [t for t in ("ares_query", "ares_conn") if ("struct %s *" % t) in ty or ("%s_t *" % t) in ty]
+            if not hit:
+                continue
+            n += 1
+            k = "member %s.%s holds a %s pointer" % (name, fld["n"], hit[0])
+            loc = "%s:%s" % (rec.get("relfile"), rec.get("ln"))
+            if (name, fld["n"]) in QREF_OK:
+                r.ok(k, loc, QREF_OK[(name, fld["n"])], nontrivial=False)
+            else:
+                r.viol(k, name, loc, "%s.%s stores a pointer to a %s outside the indexes that ares_free_query / ares_close_connection clear: when a callback, a cancel or a duplicate answer releases the object in the meantime the stored pointer dangles (keep the id and look it up again)" % (name, fld["n"], hit[0]))
+    r.require(n >= 2, "back-pointer members query->conn / server->tcp_conn not found")
+    ra = prog.func("read_answers")
+    mf = MustFacts(ra, track_calls=False)
+    for b, i, c in ra.calls_to("ares_send_query"):
+        q = strip(call_arg(c, 1))
+        k = "read_answers looks the deferred query up by id before re-sending"
+        okv = False
+        if q is not None and q.get("k") == "var":
+            for _, _, el in ra.elements():
+                if el["k"] == "asg" and is_var(strip(el["e"]["l"]), q["n"]):
+                    rr = strip(el["e"].get("r"))
+                    if rr is not None and rr.get("k") == "call":
+                        full = ra.call_by_id(rr["id"]) if rr.get("ref") else None
+                        cn = full[2] if full else rr
+                        if (cn.get("callee") or "").startswith("ares_htable_") and "get" in cn.get("callee") and "queries_by_qid" in render(cn["args"][0]):
+                            okv = True
+            nonnull = any(norm_cmp(c3, p3)[0] in ("!=", "truth") and is_var(strip(norm_cmp(c3, p3)[1]), q["n"]) for c3, p3 in mf.cond_facts_at(b, i))
+            okv = okv and nonnull
+        if okv:
+            r.ok(k, ra.loc(c["ln"]))
+        else:
+            r.viol(k, ra.name, ra.loc(c["ln"]), "the deferred re-send uses %s without looking the request up in queries_by_qid (and skipping it when it is gone): a request completed or cancelled by a callback while answers were processed is re-sent after it was freed" % render(q))
+
+
 def run(prog, R, tier):
     R.assume("re-entrant API inside completion callbacks: request entry points and ares_cancel (not ares_destroy, not server-list edits)")
     R.assume("container primitives in dsa/ do not run completion callbacks except through a destructor registered at creation (resolved per container instance)")
@@ -1055,3 +1104,4 @@ def run(prog, R, tier):
     r_proto_uaf(prog, R, E, once)
     r_sendq(prog, R, E)
     r_defer(prog, R, E)
+    r_qref(prog, R)
